@@ -1285,7 +1285,7 @@ impl Prop for C05 {
         run(c, o)
     }
     fn rule() -> &'static str {
-        "proptest + enumerated matrix. Server half (3/5 of cases): generated vt.Raw server (also tonic::server::Grpc directly, builder methods or apply_compression_config) with send-set and accept-set = any ordered subset of {gzip,deflate,zstd} (16 x 16), all four call shapes, called in-process; request grpc-accept-encoding absent / one or two header lines of 0-5 tokens from {gzip,deflate,zstd,identity,br,snappy,GZIP,gzip;q=1,empty,non-ASCII token} each with optional SP/HTAB around it / opaque bytes; request grpc-encoding in {absent,identity,gzip,deflate,zstd,br,GZIP,non-UTF-8,empty}; 1-3 request frames with flag 0/1 and payload plain / really compressed with the header's encoding / really compressed with another encoding / garbage; handler optionally calls disable_compression. Oracle (independent model): response grpc-encoding absent/identity or a known encoding that is in the send-set AND among the request's offered tokens (comma-split, OWS-trimmed, exact lower-case match, all header lines); every flag-1 response frame passes the magic check and independent decompression of the announced encoding to the handler's message, flag-0 frames carry the plain message; a flag-1 frame requires an announced encoding (an announced encoding with flag-0 frames is allowed: per-message compression is optional); disable_compression on unary/client-streaming responses => flag 0; the announced encoding must not change when the optional whitespace is removed from the accept list; request grpc-encoding not identity and not in the accept-set => handler not called, trailers-only UNIMPLEMENTED whose grpc-accept-encoding lists exactly the accept-set (as a set, identity ignored; may be absent when the set is empty); flag 1 with no/identity grpc-encoding => INTERNAL (unary: handler not called; streaming: the request stream yields it after the earlier messages); request compressed with an accepted encoding reaches the handler as the original message; flag-0 payloads reach it verbatim; a flag-1 payload the independent decompressor rejects is not delivered. Client half (2/5): generated vt.Raw client over the mock transport, send_compressed in {none,gzip,deflate,zstd}, accept_compressed any ordered subset, four shapes; scripted response grpc-encoding (same 9 values) and 0-3 response frames (same flag/payload classes). Oracle: request grpc-encoding present iff configured and equal to it, every request frame flag 1 + magic + independent decompression to the message (flag 0 plain when nothing configured); grpc-accept-encoding lists exactly the accept-set (set compare, identity ignored) or is absent when empty; response grpc-encoding not identity and outside the accept-set => UNIMPLEMENTED; flag 1 without negotiated encoding => INTERNAL; accepted encoding => messages recovered. Non-trivial: server: send/accept/offered sets pairwise different, or accept header with unknown tokens / OWS / non-ASCII, or a frame flag contradicting the header; client: accept-set != {send}, or refused response encoding, or flag contradicting the header. Also: enabling an encoding that is already enabled (send/accept) keeps the set and order of the others."
+        "proptest + enumerated matrix. Server half (3/5 of cases): generated vt.Raw server (also tonic::server::Grpc directly, builder methods or apply_compression_config) with send-set and accept-set = any ordered subset of {gzip,deflate,zstd} (16 x 16), all four call shapes, called in-process; request grpc-accept-encoding absent / one or two header lines of 0-5 tokens from {gzip,deflate,zstd,identity,br,snappy,GZIP,gzip;q=1,empty,non-ASCII token} each with optional SP/HTAB around it / opaque bytes; request grpc-encoding in {absent,identity,gzip,deflate,zstd,br,GZIP,non-UTF-8,empty}; 1-3 request frames with flag 0/1 and payload plain / really compressed with the header's encoding / really compressed with another encoding / garbage; handler optionally calls disable_compression. Oracle (independent model): response grpc-encoding absent/identity or a known encoding that is in the send-set AND among the request's offered tokens (comma-split, OWS-trimmed, exact lower-case match, all header lines); every flag-1 response frame passes the magic check and independent decompression of the announced encoding to the handler's message, flag-0 frames carry the plain message; a flag-1 frame requires an announced encoding (an announced encoding with flag-0 frames is allowed: per-message compression is optional); disable_compression on unary/client-streaming responses => flag 0; the announced encoding must not change when the optional whitespace is removed from the accept list; request grpc-encoding not identity and not in the accept-set => handler not called, trailers-only UNIMPLEMENTED whose grpc-accept-encoding lists exactly the accept-set (as a set, identity ignored; may be absent when the set is empty); flag 1 with no/identity grpc-encoding => INTERNAL (unary: handler not called; streaming: the request stream yields it after the earlier messages); request compressed with an accepted encoding reaches the handler as the original message; flag-0 payloads reach it verbatim; a flag-1 payload the independent decompressor rejects is not delivered. Client half (2/5): generated vt.Raw client over the mock transport, send_compressed in {none,gzip,deflate,zstd}, accept_compressed any ordered subset, four shapes; scripted response grpc-encoding (same 9 values) and 0-3 response frames (same flag/payload classes). Oracle: request grpc-encoding present iff configured and equal to it, every request frame flag 1 + magic + independent decompression to the message (flag 0 plain when nothing configured); grpc-accept-encoding lists exactly the accept-set (set compare, identity ignored) or is absent when empty; response grpc-encoding not identity and outside the accept-set => UNIMPLEMENTED; flag 1 without negotiated encoding => INTERNAL; accepted encoding => messages recovered. Non-trivial: server: send/accept/offered sets pairwise different, or accept header with unknown tokens / OWS / non-ASCII, or a frame flag contradicting the header; client: accept-set != {send}, or refused response encoding, or flag contradicting the header. Also: enabling an encoding that is already enabled (send/accept) keeps the set and order of the others. The apply_compression_config path widens both sets to all encodings and narrows them again with pop()."
     }
     fn assumptions() -> Vec<String> {
         vec![
